@@ -23,7 +23,7 @@ func (r *caseReporter) Violate(prop, sig, msg string) {
 func (r *caseReporter) Count(k string, n int64) { r.c.Res.count(k, n) }
 
 func runC12(c *Ctx) {
-	n := 240
+	n := 2000
 	if !c.Quick() {
 		n = 16 * 300
 	}
@@ -71,9 +71,9 @@ func replayMS(prop string) func(c *Ctx, raw json.RawMessage) {
 }
 
 func runC13(c *Ctx) {
-	na := 8
+	na := 32
 	if !c.Quick() {
-		na = 16 * 12
+		na = 16 * 24
 	}
 	am := sim.NewRand(c.Seed ^ hashStr("C13app"))
 	prs := []*[2]int64{{0, 1}, {1, 2}, {100, 10000}, nil, {2, 3}, {5, 0}, {0, 3}, {3, 7}}
@@ -87,9 +87,9 @@ func runC13(c *Ctx) {
 		runC13App(c, fmt.Sprintf("a%d", i), seed, prs[i%len(prs)])
 		c.Nontrivial(fmt.Sprintf("app-%d-%d", seed, i%len(prs)))
 	}
-	n := 64
+	n := 320
 	if !c.Quick() {
-		n = 16 * 120
+		n = 16 * 200
 	}
 	master := sim.NewRand(c.Seed ^ hashStr("C13"))
 	for i := 0; i < n; i++ {
@@ -128,7 +128,7 @@ func init() {
 // C14 has two workloads: the application-level one (app.go) and this multistore-level one, which adds
 // empty stores and every pruning option. runC14MS is invoked from the C14 worker body.
 func runC14MS(c *Ctx) {
-	n := 160
+	n := 600
 	if !c.Quick() {
 		n = 16 * 200
 	}
@@ -158,8 +158,8 @@ func (nullReporter) Count(string, int64)            {}
 
 func runC15(c *Ctx) {
 	race := raceSlice()
-	n := 20000
-	nc := 240
+	n := 60000
+	nc := 400
 	if !c.Quick() {
 		n, nc = 16*60000, 16*600
 	}
@@ -265,7 +265,7 @@ func replayC15(c *Ctx, raw json.RawMessage) {
 }
 
 func runC16(c *Ctx) {
-	n := 30000
+	n := 200000
 	if !c.Quick() {
 		n = 16 * 90000
 	}
